@@ -650,6 +650,12 @@ class Engine:
             if z3.is_rational_value(a[0]) and a[0].numerator_as_long() == 10 and a[0].denominator_as_long() == 1:
                 f = self.uf('pow10', z3.RealSort(), z3.RealSort())
                 r = f(a[1]); st.assume(r > 0); self.axiom_instances += 1
+                # powers of ten with opposite exponents are reciprocal (instances between the applications met so far in this function)
+                seen_ = getattr(self, 'pow10_args', None)
+                if seen_ is None: seen_ = self.pow10_args = []
+                for t_ in seen_[-6:]:
+                    st.assume(z3.Implies(a[1] + t_ == 0, r * f(t_) == 1)); self.axiom_instances += 1
+                if not any(t_.eq(a[1]) for t_ in seen_): seen_.append(a[1])
                 return r
             f = self.uf('pow', z3.RealSort(), z3.RealSort(), z3.RealSort())
             r = f(a[0], a[1])
@@ -2246,7 +2252,7 @@ class Verifier(Engine):
                     qn = 'lambda[%s#%s:%s]' % (self.func(encl).qual, _hl.sha1(encl.encode()).hexdigest()[:4], path_) + ('~' + self.view if self.view else '')
                 except Exception: pass
             self.prefix = 'E2:%s:%s:' % (qn, mode) if len(modes) > 1 else 'E2:%s:' % qn
-            self.vartypes = {}; self.loops_seen = set(); self.exit_sites = 0
+            self.vartypes = {}; self.loops_seen = set(); self.exit_sites = 0; self.pow10_args = []
             st = State()
             is_ctor = key.find('C1E') > 0 and f.self_rec == f.name
             if f.self_rec and f.self_rec != 'lambda':
